@@ -11,10 +11,12 @@ EXTENDS DeriveProps
 
 VARIABLES convs,     \* sequence of converter values; position = converter id
           hist,      \* sequence of operations performed so far
-          last       \* outcome of the last operation (<<>> initially)
-vars == <<convs, hist, last>>
+          last,      \* outcome of the last operation (<<>> initially)
+          sigs       \* one coverage signature per operation: which branches of the specification it took
+                     \* (used to pick, for replay on the implementation, behaviours of every kind)
+vars == <<convs, hist, last, sigs>>
 
-Init == convs = <<>> /\ hist = <<>> /\ last = <<>>
+Init == convs = <<>> /\ hist = <<>> /\ last = <<>> /\ sigs = <<>>
 
 OutKind(o) == IF o[1] = "raise" THEN <<"raise", o[2]>> ELSE o
 
@@ -23,6 +25,7 @@ ANew(rs, d) ==
   LET r == Construct(rs, d, TRUE) IN
   /\ hist' = Append(hist, [k |-> "new", recs |-> rs, delim |-> d])
   /\ last' = OutKind(r.out)
+  /\ sigs' = Append(sigs, <<"new", OutKind(r.out), Len(rs), HasEmpty(rs), \E i \in 1..Len(rs) : rs[i].ps # {} \/ rs[i].us # {}>>)
   /\ convs' = IF r.out = Ok THEN Append(convs, r.conv) ELSE convs
 
 \* convs[i].add_record(ext, case_sensitive=cs, merge=mg)   (via = "record" | "prefix")
@@ -30,6 +33,8 @@ AAdd(i, ext, cs, mg, via) ==
   LET r == IF via = "prefix" THEN AddPrefix(convs[i], ext, cs, mg) ELSE AddRecord(convs[i], ext, cs, mg) IN
   /\ hist' = Append(hist, [k |-> "add", i |-> i, rec |-> ext, cs |-> cs, mg |-> mg, via |-> via])
   /\ last' = r.out
+  /\ sigs' = Append(sigs, <<"add", r.out[1], Cardinality(MatchIdx(convs[i], ext, cs)), cs, mg, MatchKinds(convs[i], ext, cs),
+                            ext.ps # {} \/ ext.us # {}, HasEmpty(<<ext>>)>>)
   /\ convs' = [convs EXCEPT ![i] = r.conv]
 
 \* chain([convs[i] : i in is], case_sensitive=cs)
@@ -37,12 +42,16 @@ AChain(is, cs) ==
   LET r == Chain([k \in 1..Len(is) |-> convs[is[k]]], cs) IN
   /\ hist' = Append(hist, [k |-> "chain", is |-> is, cs |-> cs])
   /\ last' = r.out
+  /\ sigs' = Append(sigs, <<"chain", r.out[1], cs, Len(is),
+                            IF r.out = Ok THEN Len(ConcatRecs([k \in 1..Len(is) |-> convs[is[k]]])) - Len(r.conv.recs) ELSE 0>>)
   /\ convs' = IF r.out = Ok THEN Append(convs, r.conv) ELSE convs
 
 ASub(i, P) ==
   LET r == Subconverter(convs[i], P) IN
   /\ hist' = Append(hist, [k |-> "sub", i |-> i, P |-> P])
   /\ last' = OutKind(r.out)
+  /\ sigs' = Append(sigs, <<"sub", P = {}, \E x \in RecSet(convs[i]) : x.p \in P, \E x \in RecSet(convs[i]) : x.ps \cap P # {},
+                            P \ KnownP(convs[i]) # {}>>)
   /\ convs' = IF r.out = Ok THEN Append(convs, r.conv) ELSE convs
 
 ARemap(kind, i, m) ==
@@ -51,6 +60,8 @@ ARemap(kind, i, m) ==
              [] kind = "rewire"      -> Rewire(convs[i], m) IN
   /\ hist' = Append(hist, [k |-> kind, i |-> i, m |-> m])
   /\ last' = r.out
+  /\ sigs' = Append(sigs, IF kind = "remap_curie" THEN <<kind, RemapBranches(convs[i], m)>>
+                          ELSE <<kind, r.out[1], RepointBranches(convs[i], m, kind = "remap_uri")>>)
   /\ convs' = IF r.out = Ok THEN Append(convs, r.conv) ELSE convs
 
 ---------------------------------------------------------------------------
